@@ -843,8 +843,15 @@ func (g *treeGen) newBlob() string {
 	return ref
 }
 
-// subRange draws (offset,size) with 1 <= size, offset+size <= n.
+// subRange draws (offset,size) with offset+size <= n; now and then an empty range (a part of size 0 is
+// valid and contributes nothing).
 func (g *treeGen) subRange(n uint64) (off, size uint64) {
+	if n == 0 {
+		return 0, 0 // an empty sub-tree can only be referenced as an empty range
+	}
+	if rapid.IntRange(0, 11).Draw(g.t, "emptyRange") == 0 {
+		return rapid.Uint64Range(0, n).Draw(g.t, "offset"), 0
+	}
 	switch rapid.IntRange(0, 5).Draw(g.t, "rangeKind") {
 	case 0: // whole
 		return 0, n
@@ -890,7 +897,7 @@ func (g *treeGen) node(lvl int, typ string, minParts int) string {
 			if rapid.IntRange(0, 15).Draw(g.t, "hugeHole") == 0 {
 				p.Size = 1<<32 + rapid.Uint64Range(0, 1<<33).Draw(g.t, "holeSize")
 			} else {
-				p.Size = rapid.Uint64Range(1, 30).Draw(g.t, "holeSize")
+				p.Size = rapid.Uint64Range(0, 30).Draw(g.t, "holeSize")
 			}
 		}
 		if p.Offset == 0 && (p.BlobRef != "" || p.BytesRef != "") {
